@@ -29,7 +29,8 @@ LEVEL_RULE = (
     "probe; substitution raising inside substitute() and adjoint forward pass raising inside AdjointTape, each caught "
     "k blocks up for every k>=0) is executed by replaying representative-history+event from a clean slate; "
     "phase B: every well-nested event sequence of the stated length over the reduced alphabet, un-merged; "
-    "phase C: overflow chains; phase D: one tape instance entered, left and entered again under another stack. A case is non-trivial when its last event changes the stack, probes under >=1 open "
+    "phase C: overflow chains; phase D: one tape instance entered, left and entered again under another stack; phase E: a rule-less "
+    "DispatchedInterpretation whose first rule is registered before/while/after it is active. A case is non-trivial when its last event changes the stack, probes under >=1 open "
     "block, or makes the library raise through its own temporary pushes; distinct = distinct event sequence"
 )
 ASSUMPTIONS = [
@@ -70,6 +71,11 @@ def bounds(tier):
         "(normally / by exception), entered again (with / deco) under every stack Y of depth <= 2, then probe, "
         "subst, exit, probe; T0 is also a symbol of the un-merged alphabet (enabled while inactive; a fresh tape "
         "takes its place while T0 is active)" % (2 if thorough else 1),
+        "late_registration_alphabet": list(LATE_ALPHABET),
+        "late_registration_length": 6 if thorough else 5,
+        "late_registration": "D = DispatchedInterpretation created per history without rules; all well-nested sequences "
+        "of that length over with/deco(lazy, A, D), exit, raise(k), probe and reg (= D's first rule is registered "
+        "here: before entry, while active, after exit); un-merged, every step compared with the list",
         "overflow_chain_bases": [b or "(default eager)" for b in _CHAIN_BASES],
         "overflow_chain_patterns": list(_CHAIN_PATTERNS),
         "overflow_followups": "every enabled event after the failed entry (failed entry as with and as decorator)"
@@ -158,6 +164,8 @@ def _setup(seed=0):
     A.register(ProbeTerm, Funsor)(lambda arg: sent)
     B.register(ProbeTerm, Funsor)(lambda arg: None)
     sent_c = Number(23.0)
+    G.SENT_D = Number(29.0)
+    G.Funsor = Funsor
 
     def userC(cls, *args):
         """A function-style partial interpretation: answers the sentinel probe, declines everything else."""
@@ -240,6 +248,9 @@ def real_desc(obj, _depth=0):
     n = G.NAMES.get(id(obj))
     if n is not None:
         return n
+    n = getattr(obj, "_fv_name", None)  # the per-history rule-less DispatchedInterpretation
+    if n is not None:
+        return n
     if _depth > 40:
         return ("cyclic",)
     t = type(obj)
@@ -281,6 +292,8 @@ def _label(fn):
         return "SENT"
     if r is G.SENT_C:
         return "SENTC"
+    if r is G.SENT_D:
+        return "SENTD"
     return type(r).__name__.split("[")[0]
 
 
@@ -305,6 +318,7 @@ def _site(e):
         "subst": "substitute",
         "tapefwd": "forward_backward",
         "probe": "interpret",
+        "reg": "DispatchedInterpretation.register",
         "end": "base-stack",
         "setup": "base-stack",
     }[k]
@@ -331,6 +345,9 @@ class Exec:
         self.pre = {}
         self.final = None
         self.T0 = G.AdjointTape()  # the persistent tape instance of this history
+        self.D = G.fi.DispatchedInterpretation("userD")  # created per history, no rules until a ("reg",) event
+        self.D._fv_name = "D"
+        self.d_reg = False
 
     # -- helpers ------------------------------------------------------------------------------------------------
 
@@ -346,7 +363,10 @@ class Exec:
         if sym == ref.PERSISTENT_TAPE:
             assert not any(s is self.T0 for h in G.STACK for s in h.subinterpretations), "ill-formed: T0 is active"
             return self.T0
-        return G.OBJ[sym]
+        return self.obj(sym)
+
+    def obj(self, sym):
+        return self.D if sym == ref.LATE else G.OBJ[sym]
 
     def prepare(self):
         # decorators are created, and the functions decorated, before the history starts (at the base state)
@@ -403,6 +423,14 @@ class Exec:
             k0 = e[0]
             if k0 == "probe":
                 self.do_probe()
+                pos += 1
+            elif k0 == "reg":
+                if not self.d_reg:
+                    sent = G.SENT_D
+                    self.D.register(G.ProbeTerm, G.Funsor)(lambda arg: sent)
+                    self.d_reg = True
+                self.check_stack("register-", active=ref.LATE in self.model.symbols)
+                self.complete("reg")
                 pos += 1
             elif k0 == "exit":
                 assert level > 0, "ill-formed history: exit at the base"
@@ -520,7 +548,7 @@ class Exec:
             if st["with"] and st["val"] is not top.cache:
                 self.fail("with-value", "memoize() did not yield the cache of the pushed Memoize", **feat)
         else:
-            obj = G.OBJ[sym] if sk == "partial" else st["cm"]
+            obj = self.obj(sym) if sk == "partial" else st["cm"]
             if type(top) is not G.Prio:
                 self.fail("top-type", "after entering partial %s the active interpretation is %r" % (sym, top), **feat)
             subs = tuple(top.subinterpretations)
@@ -563,7 +591,7 @@ class Exec:
 
     def do_probe(self):
         top = self.model.top
-        exp = ref.predict(top, G.CAL)
+        exp = ref.predict(top, G.CAL, self.d_reg)
         act = tuple(_label(f) for f in G.PROBE_FNS)
         self.check_stack("probe-")
         if act != exp:
@@ -699,6 +727,7 @@ def outcome(x, events, phase):
         k in ("with", "deco", "exit", "raise")
         or (k in ("subst", "tapefwd") and x.obs and ":raised" in x.obs[-1])
         or (k == "probe" and len(x.final[0]) >= 1)
+        or (k == "reg" and ref.LATE in x.final[0])
     )
     cls = "%s%s -> %s @%s" % (
         k,
@@ -764,6 +793,8 @@ def userC(cls, *args):  # a function-style PARTIAL interpretation: None = declin
     return SENTC if cls is ProbeTerm else None
 
 C = userC
+D = DispatchedInterpretation("userD")  # no rules yet
+SENTD = Number(29.0)
 t1 = Tensor(np.array([1.0, 2.0, 3.0]), OrderedDict(i=Bint[3]))
 t2 = Tensor(np.array([4.0, 5.0, 6.0]), OrderedDict(i=Bint[3]))
 x, y = Variable("x", Real), Variable("y", Real)
@@ -782,7 +813,7 @@ def probe(where, expected):
     actual = []
     for f in (lambda: t1 + t2, lambda: t1.reduce(ops.add), lambda: x + y, lambda: ProbeTerm(t1)):
         r = f()
-        actual.append("SENT" if r is SENT else "SENTC" if r is SENTC else type(r).__name__.split("[")[0])
+        actual.append("SENT" if r is SENT else "SENTC" if r is SENTC else "SENTD" if r is SENTD else type(r).__name__.split("[")[0])
     print(where, "probes:", actual)
     if actual != expected:
         raise SystemExit("VIOLATED at %s: expected probe classes %s" % (where, expected))
@@ -790,7 +821,7 @@ def probe(where, expected):
 assert interpreter._STACK[0] is reflect and interpreter._STACK[1] is eager and len(interpreter._STACK) == 2
 '''
 
-_CM_SRC = {"memo": "memoize()", "tape": "AdjointTape()", "T0": "T0"}
+_CM_SRC = {"memo": "memoize()", "tape": "AdjointTape()", "T0": "T0", "D": "D"}
 
 
 def snippet(events):
@@ -812,7 +843,13 @@ def snippet(events):
             tag = "'#%d %s'" % (pos, " ".join(str(a) for a in e))
             if k == "probe":
                 out.append(pad + "check(%s, %s)" % (tag, names(stack)))
-                out.append(pad + "probe(%s, %r)" % (tag, list(ref.predict(stack[-1]))))
+                reg = any(x[0] == "reg" for x in events[:pos])  # events run in history order
+                out.append(pad + "probe(%s, %r)" % (tag, list(ref.predict(stack[-1], None, reg))))
+                pos += 1
+            elif k == "reg":
+                if not any(x[0] == "reg" for x in events[:pos]):
+                    out.append(pad + "D.register(ProbeTerm, Funsor)(lambda arg: SENTD)  # first rule of D")
+                out.append(pad + "check(%s, %s)" % (tag, names(stack)))
                 pos += 1
             elif k == "exit":
                 return pos + 1, stack, None
@@ -1000,7 +1037,7 @@ def _depth_step(d, e):
         return d + 1
     if k == "exit":
         return d - 1
-    if k == "probe":
+    if k in ("probe", "reg"):
         return d
     return d - e[1]
 
@@ -1132,6 +1169,34 @@ def reentry_histories(tier):
 
 
 # ---------------------------------------------------------------------------------------------------------------
+# phase E / a rule-less DispatchedInterpretation whose first rule is registered before / during / after its block
+
+LATE_ALPHABET = ("lazy", "A", "D")
+
+
+def late_sequences(length, prefix):
+    """All well-nested sequences of exactly ``length`` events over LATE_ALPHABET (with / deco / exit / raise k /
+    probe) plus the event ("reg",) at every position."""
+
+    def step(stack, e):
+        if e[0] in ("with", "deco"):
+            return stack + (e[1],)
+        return stack[: _depth_step(len(stack), e)]
+
+    def rec(seq, stack):
+        if len(seq) == length:
+            yield seq
+            return
+        for e in ref.menu(len(stack), LATE_ALPHABET, length, ()) + [("reg",)]:
+            yield from rec(seq + (e,), step(stack, e))
+
+    st0 = ()
+    for e in prefix:
+        st0 = step(st0, e)
+    yield from rec(tuple(prefix), st0)
+
+
+# ---------------------------------------------------------------------------------------------------------------
 # orchestration
 
 
@@ -1148,6 +1213,12 @@ def _work(job):
             _, _, _, symbols, length, prefix, internal_ks = job
             unmerged_unit(symbols, length, prefix, internal_ks, rep, stats)
             stats.table = set(stats.table)
+        elif kind == "late":
+            _, _, _, length, prefix = job
+            for h in late_sequences(length, prefix):
+                x = run(h)
+                stats.executions += 1
+                rep.add(outcome(x, h, "E"))
         elif kind in ("chains", "reentry"):
             _, _, _, hists = job
             for h in hists:
@@ -1310,13 +1381,19 @@ def explore(tier, seed, report):
         for rep, pay in _map(pool, [("reentry", tier, seed, hists[i::n]) for i in range(n) if hists[i::n]]):
             report.merge(rep)
             d.executions += pay["executions"]
+        # phase E
+        LE = b["late_registration_length"]
+        e_exec = 0
+        for rep, pay in _map(pool, [("late", tier, seed, LE, p) for p in late_sequences(2, ())]):
+            report.merge(rep)
+            e_exec += pay["executions"]
     finally:
         _close(pool)
         restore_base()
     _STATS.update(
         {
             "states": len(a["states"] | c.states),
-            "transitions": a["transitions"] + c.executions + d.executions,
+            "transitions": a["transitions"] + c.executions + d.executions + e_exec,
             "max_depth": max(a["max_depth"], c.max_depth),
             "bfs": {
                 "canonical_states": len(a["states"]),
@@ -1341,6 +1418,7 @@ def explore(tier, seed, report):
             },
             "overflow_chains": {"histories": c.executions, "end_states": len(c.states), "max_depth": c.max_depth},
             "tape_reentry": {"histories": d.executions},
+            "late_registration": {"alphabet": list(LATE_ALPHABET) + ["reg"], "length": LE, "sequences_executed": e_exec},
         }
     )
 
